@@ -419,7 +419,20 @@ func propC18(r *Run) {
 				nb := fmt.Sprintf("/srv/whawty/B%d", issued)
 				newCfg := GenConfig(r, nb)
 				kind := []dirKind{dirValid, dirValid, dirNoAdmin, dirForeignFile, dirMissing}[r.Choose("new-dir", 5)]
-				w.makeDir(kind, nb, newCfg.SetMap()[newCfg.Default])
+				if cur.BaseDir != "" && len(cur.Sets) > 1 && r.Choose("only-default-changes", 5) == 0 {
+					// second step of a roll-out: same directory, same parameter sets, another default
+					newCfg = cur
+					newCfg.Sets = append([]PSet(nil), cur.Sets...)
+					for _, s := range cur.Sets {
+						if s.ID != cur.Default {
+							newCfg.Default = s.ID
+						}
+					}
+					nb, kind = cur.BaseDir, dirValid
+					r.Count("probe:reload-changes-only-the-default")
+				} else {
+					w.makeDir(kind, nb, newCfg.SetMap()[newCfg.Default])
+				}
 				text := newCfg.YAML()
 				p := &pending{newCfg: newCfg, expectNew: kind == dirValid, text: text}
 				p.desc = fmt.Sprintf("new config %s, directory kind %d", newCfg.Desc(), kind)
